@@ -36,8 +36,9 @@ def _leaf(rng, maxl):
             p = 1
         return '%s %s nfrombig' % (N.limbs_tok(p), N.limbs_tok(q)), N.frac(p, q)
     if k < 0.6:
-        up = rng.choice([0, 1, -1, 6, -6, 2 ** 31, -2 ** 32 - 4, rng.randint(-2 ** 40, 2 ** 40), rng.randint(-50, 50)])
-        down = rng.choice([1, 2, 4, 3, 12, 2 ** 32, 0, rng.randint(1, 2 ** 40), rng.randint(1, 50)])
+        up = rng.choice([0, 1, -1, 6, -6, 2 ** 31, -2 ** 32 - 4, rng.randint(-2 ** 40, 2 ** 40), rng.randint(-50, 50),
+                         -2 ** 63, -2 ** 63 + 1, 2 ** 63 - 1])
+        down = rng.choice([1, 2, 4, 3, 12, 2 ** 32, 0, rng.randint(1, 2 ** 40), rng.randint(1, 50), 2 ** 63 - 1, 2 ** 62])
         if down == 0 and up == 0:
             up = 1
         return 'I%d U%d nnew' % (up, down), N.frac(up, down)
